@@ -91,7 +91,7 @@ def shape(node, out):
 
 class C09(InputProp):
     id = "C09"
-    rule = ("6 tags x 18 contexts x every body over a 50-lexeme markup alphabet up to the length bound (bodies containing the tag's own "
+    rule = ("6 tags x 19 contexts (+ 4 argument-consuming functions judged by 'no marker debris') x every body over a 50-lexeme markup alphabet up to the length bound (bodies containing the tag's own "
             "closing tag excluded); distinct = distinct (tag, context, tree shape) outcomes")
     assumptions = ("bodies are sequences of the 50 lexemes of SIGMA_B", "the reserved marker byte 0x7f does not occur in bodies (excluded by the statement)")
     chunk = 1500
